@@ -176,7 +176,8 @@ Definition law_expr (e : expr) (o : outcome) : list Z :=
    must denote the same paths (otherwise removal by one text would take away the registration of another).
    7  one spelling accepted, the other not      8  graphs differ
    9  Python == false                          10  hashes differ
-   12 Python == true although the observed paths differ *)
+   12 Python == true although the observed paths differ
+   15 (Corr.law_codes) a handler registered on a probe object by the first spelling could not be removed by the second *)
 Definition same_class (a b : outcome) : bool :=
   match a, b with
   | Rejected, Rejected | CompileError, CompileError | Graphs _, Graphs _ | Crashed, Crashed => true
